@@ -34,6 +34,7 @@ DEFAULT = dict(
     sl_dist=(3, 7), tp_dist=(2, 6), max_exit_rows=2, exits_in='go',          # 'go' | 'on_open' | 'mixed' | 'none'
     p_cancel=0.4, p_edit=0.15, p_liq=0.03, p_edit_reduced=0.4, p_edit_increased=0.3, p_edit_entry=0.0,
     p_wrong_side=0.0, p_oversize=0.0, oversize_sl=False, edit_offsets=None,
+    p_inplace=0.12,           # in-place edits of an already formatted declaration (ndarray item / column assignment)
     resize_always=False,      # exits re-declared for the current position size after every increase / reduction
 )
 
@@ -107,15 +108,46 @@ def make_strategy(policy, log):
                     break
             return rows
 
+        @staticmethod
+        def _style(r, rows):
+            """the ways a declaration may be written: one tuple, list of tuples, list of lists, ndarray"""
+            x = r.random()
+            if len(rows) == 1 and x < 0.35:
+                return rows[0]
+            if x < 0.6:
+                return list(rows)
+            if x < 0.8:
+                return [list(q) for q in rows]
+            return np.array(rows, dtype=float)
+
+        def _inplace(self, r):
+            """edit a declaration that jesse has already formatted (ndarray) IN PLACE: item assignment or += on the price column"""
+            names = [n for n in (('stop_loss', 'take_profit') + (('buy',) if self.position.qty > 0 else ('sell',) if self.position.qty < 0 else ()))
+                     if isinstance(getattr(self, n), np.ndarray) and len(getattr(self, n)) > 0]
+            if not names or self.position.qty == 0:
+                return False
+            name = r.choice(names)
+            if name in ('buy', 'sell') and r.random() < 0.7:
+                name = r.choice([n for n in names if n not in ('buy', 'sell')] or [name])
+            arr = getattr(self, name)
+            d = r.choice([-2, -1, 1, 2]) * tick
+            if r.random() < 0.5:
+                k = r.randrange(len(arr))
+                if arr[k, 1] + d > 1:
+                    arr[k, 1] = arr[k, 1] + d
+            elif arr[:, 1].min() + d > 1:
+                arr[:, 1] += d
+            return True
+
         def _set_exits(self, r, sign, total, which='both'):
             if which in ('sl', 'both'):
                 sl = self._ladder(r, P['sl_dist'], -sign, total, self.price)
                 if P['oversize_sl']:
                     sl = [(total, sl[0][1])]
-                self.stop_loss = sl if len(sl) > 1 or r.random() < 0.5 else sl[0]
+                self.stop_loss = self._style(r, sl)
             if which in ('tp', 'both'):
                 tp = self._ladder(r, P['tp_dist'], sign, total, self.price)
-                self.take_profit = tp if len(tp) > 1 or r.random() < 0.5 else tp[0]
+                self.take_profit = self._style(r, tp)
 
         def go_long(self):
             r = self._r('go_long')
@@ -160,6 +192,8 @@ def make_strategy(policy, log):
             log(self, 'hook', 'red', order)
             if P['resize_always'] and self.position.qty != 0:
                 self._set_exits(r, 1 if self.position.qty > 0 else -1, abs(self.position.qty), 'both')
+            elif r.random() < P['p_inplace'] and self._inplace(r):
+                pass
             elif r.random() < P['p_edit_reduced'] and self.position.qty != 0:
                 sign = 1 if self.position.qty > 0 else -1
                 if r.random() < 0.5:        # stop moved to (about) break-even for what is left
@@ -178,6 +212,8 @@ def make_strategy(policy, log):
             x = r.random()
             if x < P['p_liq']:
                 self.liquidate()
+            elif x > 1 - P['p_inplace'] and self._inplace(r):
+                pass
             elif x < P['p_liq'] + P['p_edit'] and self.position.qty != 0:
                 sign = 1 if self.position.qty > 0 else -1
                 self._set_exits(r, sign, abs(self.position.qty), r.choice(['sl', 'tp', 'both']))
@@ -391,8 +427,8 @@ class StratRec:
             self.emit('exc', cls=out['exc'].split(':')[0])
         fee = self.item['fee']             # [num, den]
         u = self.punit * self.qunit / fee[1]      # money lattice: quantity unit * price unit / fee denominator
-        if self.item.get('spot'):
-            u = self.punit / 1024                 # spot: money is only logged, never compared (no wallet claim for spot)
+        if self.item.get('spot') and fee[0] != 0:
+            u = self.punit / 1024                 # spot: compared only in fee-free sessions (where the trade formula is exact)
         trades = []
         for t in fin.get('trades', []):
             den = 1000
@@ -545,7 +581,7 @@ def gen_items(seed, count, kinds, n_minutes=240):
             it.update(tf='5m', n=(n_minutes // 5) * 5 * 2)
         elif kind == 'spot':       # spot account: exits may only be declared once the position is open; no shorts, no fee
             pol.update(base=100, tick=1.0, qtys=(1, 2), max_entry_rows=2, max_exit_rows=2, exits_in='on_open', allow_short=False,
-                       p_edit=0.25, resize_always=True, p_edit_entry=0.0, p_liq=0.0)
+                       p_edit=0.25, resize_always=True, p_edit_entry=0.0, p_liq=0.0, p_inplace=0.0)
             it.update(spot=True, fee=[0, 1])
         elif kind == 'iso':        # isolated margin, leverage 20: positions without a stop run into the liquidation order
             pol.update(base=100, tick=1.0, qtys=(1, 2), max_entry_rows=1, entry_offsets=(0, 0, -1, 1), max_exit_rows=2,
@@ -562,8 +598,12 @@ def gen_items(seed, count, kinds, n_minutes=240):
                       fast=rng.choice([False, True]))
         elif kind == 'spotfee':    # spot account with a fee: the fee of a buy is taken from the base asset (position = qty * (1 - fee))
             pol.update(base=100, tick=1.0, qtys=(1, 2), max_entry_rows=2, max_exit_rows=2, exits_in='on_open', allow_short=False,
-                       p_edit=0.25, resize_always=True, p_edit_entry=0.0, p_liq=0.0)    # (a market exit next to resting limit sells is rejected in spot)
+                       p_edit=0.25, resize_always=True, p_edit_entry=0.0, p_liq=0.0, p_inplace=0.0)    # (a market exit next to resting limit sells is rejected in spot)
             it.update(spot=True, fee=[1, 1024], qdiv=1024)
+        elif kind == 'spotover':   # fee-free spot, full-size stop next to a partial take-profit, never re-sized
+            pol.update(base=100, tick=1.0, qtys=(1, 2), max_entry_rows=1, max_exit_rows=2, exits_in='on_open', allow_short=False,
+                       oversize_sl=True, p_edit=0.0, p_edit_reduced=0.0, p_edit_increased=0.0, p_liq=0.0, p_inplace=0.0, p_edit_entry=0.0)
+            it.update(spot=True, fee=[0, 1])
         elif kind == 'fast2':      # fast simulator, two symbols, all timeframes > 1m: resting orders fill mid-chunk
             tf = rng.choice(['5m', '15m'])
             pol.update(base=100, tick=1.0, qtys=(1, 2), max_entry_rows=2, max_exit_rows=2, exits_in=rng.choice(['go', 'on_open']),
